@@ -476,15 +476,22 @@ class OrdSuite(Suite):
         if mode == 'ord':
             t.extra = 'impl PartialOrd for T { fn partial_cmp(&self, o: &Self) -> Option<Ordering> { Some(::core::cmp::Ord::cmp(self, o)) } }'
         meth = 'm_pcmp' if mode == 'partial' else 'm_cmp'
+        # boundary: every field of the type ignored (and, often, no field-less variant left): only the variant decides
+        p_ign = 0.2
+        if not self.layout and r.random() < 0.08:
+            p_ign = 1.0
+            with_fields = [v for v in t.variants if v.fields]
+            if t.kind == 'enum' and with_fields and r.random() < 0.7:
+                t.variants = with_fields
         # discriminants / repr
         add_discriminants(r, t)
         for v in t.variants:
             ranks = r.sample(range(-6, 7), len(v.fields))
             for i, f in enumerate(v.fields):
-                c = r.random()
+                c = r.random() if p_ign < 1.0 else 0.0
                 f.at['o'] = 'plain'; f.at['rank'] = None
                 metas = []
-                if c < 0.2 and not self.layout:
+                if c < p_ign and not self.layout:
                     f.at['o'] = 'ignore'
                     metas.append(('ignore', None))
                     if r.random() < 0.3:
@@ -570,7 +577,7 @@ class OrdSuite(Suite):
                        ' println!("RES\\t%s\\tpartial_cmp\\t{}", res);' % tid)
             xops = ['partial_cmp']
         fns.append('pub fn run(out: &mut Out) { let vs = values(); for (i, a) in vs.iter().enumerate() { for (j, b) in vs.iter().enumerate() { %s } } %s }' % (' '.join(checks), resline))
-        return t, module(t, '\n'.join([t.extra] + fns), nv), dict(values=nv, mode=mode, xops=xops)
+        return t, module(t, '\n'.join([t.extra] + fns), nv), dict(values=nv, mode=mode, xops=xops, traits=ta + (['EnumOrdering'] if t.kind == 'enum' else []))
 
 SUITES = {'eq': EqSuite(), 'hash': HashSuite(), 'ord': OrdSuite(), 'ordlayout': OrdSuite(layout=True)}
 
@@ -1062,7 +1069,22 @@ def union_xvalues(size):
 
 class UnionSuite(Suite):
     name = 'union'
+    def make_not_copy(self, r, tid):
+        # C20: Clone on a union is a bitwise copy and REQUIRES Copy fields: `*self` only compiles when Self: Copy.  With the
+        # automatic bound switched off (or replaced), a union with a field that is not Copy must not get a compiling Clone.
+        mode = pick(r, ['Clone(bound = false)', 'Clone(bound(false))', 'Clone(bound(X: ::core::clone::Clone))', 'Clone(bound = "X: ::core::clone::Clone")'])
+        fs = [('a', '::core::mem::ManuallyDrop<X>')] + ([('b', 'u8')] if r.random() < 0.5 else []) + ([('c', '[u16; 2]')] if r.random() < 0.3 else [])
+        r.shuffle(fs)
+        t = Ty(tid, 'union', [])
+        t.raw_decl = '#[derive(Educe)]\n#[educe(%s)]\npub union T<X> { %s }' % (mode, ', '.join('pub %s: %s' % f for f in fs))
+        src = ('// %s\n#![allow(dead_code, unused_variables, unused_mut, unused_imports)]\nuse crate::support::*;\n'
+               'pub mod ty {\n    #![deny(warnings)]\n    #![allow(dead_code, unused_imports)]\n    use educe::Educe;\n%s\n}\npub use ty::T;\n'
+               'pub fn run(out: &mut Out) { let _ = |x: &T<::std::string::String>| ::core::clone::Clone::clone(x); out.check(true, "%s", "compile", || String::new()); }\n' % (tid, t.raw_decl, tid))
+        return t, src, dict(values=1, traits=['Clone'], must_not_compile='union_clone_not_copy',
+                            why='Clone on a union copies the bytes, which requires Copy fields; `*self` does not compile for a non-Copy Self')
     def make(self, r, tid):
+        if r.random() < 0.06:
+            return self.make_not_copy(r, tid)
         nf = pick(r, [1, 2, 3])
         pool = [('u8', 1), ('u16', 2), ('[u8; 3]', 3), ('u32', 4), ('C<1>', 1), ('[u16; 2]', 4), ('u64', 8), ('Off', 8), ('Off', 8)]
         fs = []
@@ -1808,8 +1830,15 @@ def run(pid, suites, tier, seed, n=None, hostile=False, only_ops=None, also=None
                                              what='%s: the real compiled code and the model run under Sem/Interp.v disagree (first difference at result %d: real %s, model %s)'
                                                   % (op, i, real[i:i + 1] if i >= 0 else real[:40], p[2][i:i + 1] if i >= 0 else p[2][:40]),
                                              type_def=type_decl(info[tid][0]), detail='real=%s model=%s' % (real[:200], p[2][:200]), op='model_' + op))
+        for tid, (t, src, meta) in info.items():
+            if meta.get('must_not_compile') and tid not in compile_fail:
+                failures.append(dict(key='k2:accepted:%s:%s' % (meta['must_not_compile'], hashlib.sha256(type_decl(t).encode()).hexdigest()[:10]),
+                                     what='this request must not yield compiling code (%s), yet the generated impl compiles' % meta['why'],
+                                     type_def=type_decl(t), detail='', module_source=src, op='must_not_compile'))
         for tid, msg in compile_fail.items():
             t, src, meta = info[tid]
+            if meta.get('must_not_compile'):
+                continue        # the expected outcome
             if t is None:
                 failures.append(dict(key='known:' + tid[6:], what='known-finding probe %s still does not compile: %s' % (tid[6:], msg[:200]), type_def=src, detail=msg, op='compile'))
                 continue
